@@ -75,7 +75,7 @@ Detect == st = "done" =>
 ParsedRec(p) == IF p.ok THEN [ok |-> TRUE, why |-> "", type |-> p.type, data |-> p.data, cks |-> p.cks, count |-> p.count,
                               addr |-> IF fmt = "hex" THEN Digits(p.addr, 4) ELSE p.addr]
                 ELSE [ok |-> FALSE, why |-> p.why, type |-> 0, data |-> <<>>, cks |-> 0, count |-> 0, addr |-> <<0, 0, 0, 0>>]
-AlphaSeq == <<48, 49, 50, 51, 52, 53, 54, 55, 56, 57, 65, 66, 67, 68, 69, 70, 71, 90, 32>>
+AlphaSeq == <<48, 49, 50, 51, 52, 53, 54, 55, 56, 57, 65, 66, 67, 68, 69, 70, 71, 90>>
 Corruption(L, j) ==
   LET x  == LcgAt(rnd, 5 * j)
       k  == 1 + ((256 * Rb(x, 1) + Rb(x, 2)) % Len(L))
